@@ -327,6 +327,52 @@ def run_mime(ctx):
             ctx.violation(dict(stage="mime", kind="panic", text=m))
 
 
+def mime_parts(text):
+    """independent reading of a media type: (type/subtype lower-cased incl. +suffix, {parameter name lower-cased: value unquoted})"""
+    parts, cur, inq = [], "", False
+    for ch in text:
+        if ch == '"':
+            inq = not inq; cur += ch
+        elif ch == ";" and not inq:
+            parts.append(cur); cur = ""
+        else:
+            cur += ch
+    parts.append(cur)
+    params = {}
+    for p_ in parts[1:]:
+        if "=" in p_:
+            k, v = p_.split("=", 1)
+            v = v.strip()
+            v = v[1:-1] if len(v) >= 2 and v[0] == v[-1] == '"' else v
+            # (character-set names are case-insensitive: the mime crate stores them lower-cased)
+            params[k.strip().lower()] = v.lower() if k.strip().lower() == "charset" else v
+    return parts[0].strip().lower(), params
+
+
+def run_mime_e2e(ctx):
+    """the Content-Type a backend returns for an object is the Content-Type the client reads: essence, +suffix and every parameter"""
+    ms = ["text/plain", "application/octet-stream", "application/octet-stream; charset=binary", "application/octet-stream+zstd", "application/octet-stream; a=1; b=\"two words\"",
+          "APPLICATION/OCTET-STREAM; X=y", "text/plain; charset=utf-8", "image/svg+xml", "application/json;charset=UTF-8", "text/plain; charset=\"utf-8\"",
+          "a/b; c=d; e=\"f g\"", "multipart/form-data; boundary=xyz", "application/vnd.api+json; profile=\"p\"", "text/html; charset=ISO-8859-4", "application/x-www-form-urlencoded"]
+    cases, meta = [], []
+    for m in ms:
+        for fn, method in (("get_object", "GET"), ("head_object", "HEAD")):
+            cases.append(dict(config=dict(host=None, auth=None, access="allow", route="none"),
+                              request=dict(method=method, uri=b"/my-bucket/k".hex(), headers=[["host", b"s3.example.com".hex()]], body=None),
+                              script={fn: dict(headers=[], output=dict(h=dict(content_type=m.encode().hex()), payload={}, string={}))}))
+            meta.append((m, fn))
+    for (m, fn), r in zip(meta, vlib.run_impl("svc", cases)):
+        ctx.cov["evaluations"] += 1
+        resp = r.get("response", {})
+        got = [bytes.fromhex(v).decode("utf8", "replace") for k, v in resp.get("headers", []) if k == "content-type"]
+        ctx.nontrivial(("mime-e2e", m, fn, tuple(got)))
+        if "panic" in r or resp.get("status") != 200 or len(got) != 1 or mime_parts(got[0]) != mime_parts(m):
+            ctx.violation(dict(stage="mime", kind="the content type the backend returned is not the one the response announces", operation=fn, returned=m,
+                               response_status=resp.get("status"), response_content_type=got))
+        else:
+            ctx.cov["traces_validated_against_impl"] += 1
+
+
 def run(ctx):
     ctx.cov["rule"] = ("Range: every header string bytes=F-L / bytes=F- / bytes=-S for F,L,S <= 12, the numeric edges "
                        "(2^31, 2^32, 2^53, 2^63, 2^64 +-1, > u64), hand-written near-grammar strings and seeded random "
@@ -345,3 +391,4 @@ def run(ctx):
     run_timestamps(ctx)
     run_copy(ctx)
     run_mime(ctx)
+    run_mime_e2e(ctx)
